@@ -1373,6 +1373,9 @@ func replay(path string) int {
 	hx.Must(err)
 	var f failure
 	hx.Must(json.Unmarshal(b, &f))
+	if strings.HasPrefix(f.Key, "derive-") && len(f.Files) > 0 {
+		return replayDerive(f)
+	}
 	if len(f.Files) == 0 || len(f.Lint) == 0 {
 		fmt.Println(string(b))
 		fmt.Println("REPLAY: no concrete failing input recorded in this file")
@@ -1407,6 +1410,67 @@ func replay(path string) int {
 		fmt.Println("other:   ", o)
 	}
 	if strings.Join(f.Want, " ") == repsStr(res.reps) && !strings.HasPrefix(f.Key, "unexpected-diagnostic") {
+		fmt.Println("REPLAY: passes now")
+		return 0
+	}
+	fmt.Println("REPLAY: still fails (" + f.Key + ")")
+	return 1
+}
+
+// replayDerive re-derives the interface of the recorded callee and compares the
+// `required` flag of the input named in the key with the declaration
+// (key = derive-<kind>:<name>:required=<bool>:default=<0 absent|1 null|2 value>).
+func replayDerive(f failure) int {
+	root, err := os.MkdirTemp("/var/tmp", "calls-replay-")
+	hx.Must(err)
+	defer os.RemoveAll(root)
+	for p, s := range f.Files {
+		writeFile(filepath.Join(root, p), s)
+		fmt.Printf("--- %s\n%s", p, s)
+	}
+	hx.Must(os.MkdirAll(filepath.Join(root, ".github", "workflows"), 0o755))
+	parts := strings.Split(f.Key, ":")
+	if len(parts) != 4 {
+		fmt.Println("REPLAY: unrecognised key", f.Key)
+		return 1
+	}
+	kind, name := parts[0], parts[1]
+	want := parts[2] == "required=true" && parts[3] != "default=2"
+	proj, err := actionlint.NewProject(root)
+	hx.Must(err)
+	got, found := false, false
+	switch kind {
+	case "derive-action":
+		m, _, err := actionlint.NewLocalActionsCache(proj, nil).FindMetadata("./act")
+		hx.Must(err)
+		if m != nil {
+			if i, ok := m.Inputs[strings.ToLower(name)]; ok {
+				got, found = i.Required, true
+			}
+		}
+	case "derive-workflow-file", "derive-workflow-ast":
+		spec := "./.github/workflows/callee.yml"
+		c := actionlint.NewLocalReusableWorkflowCache(proj, root, nil)
+		if kind == "derive-workflow-ast" {
+			w, _ := actionlint.Parse([]byte(f.Files[".github/workflows/callee.yml"]))
+			if w != nil {
+				for _, e := range w.On {
+					if e, ok := e.(*actionlint.WorkflowCallEvent); ok {
+						c.WriteWorkflowCallEvent(filepath.Join(root, ".github", "workflows", "callee.yml"), e)
+					}
+				}
+			}
+		}
+		m, err := c.FindMetadata(spec)
+		hx.Must(err)
+		if m != nil {
+			if i, ok := m.Inputs[strings.ToLower(name)]; ok && i != nil {
+				got, found = i.Required, true
+			}
+		}
+	}
+	fmt.Printf("input %q: declared %s %s; demanded Required=%v; implementation: found=%v Required=%v\n", name, parts[2], parts[3], want, found, got)
+	if found && got == want {
 		fmt.Println("REPLAY: passes now")
 		return 0
 	}
